@@ -657,3 +657,7 @@ fn report_exit(reason: &eyre::Result<&str>, message: &str) {
         Err(error) => error!(%error, message),
     }
 }
+
+#[cfg(all(test, feature = "verif"))]
+#[path = "/verif/harness/relayer/write_mc.rs"]
+mod verif_write;
